@@ -4,6 +4,7 @@ mod util;
 mod ops_basic;
 mod ops_cache;
 mod ops_checker;
+mod ops_claim;
 
 use std::io::{BufRead, Write};
 
@@ -27,6 +28,7 @@ fn serve() {
     let mut out = std::io::BufWriter::new(stdout.lock());
     let mut st = ops_basic::State::default();
     let mut cst = ops_cache::CacheState::default();
+    let mut qst = ops_claim::ClaimState::default();
     for line in stdin.lock().lines() {
         let line = line.expect("stdin");
         if line.is_empty() {
@@ -37,6 +39,9 @@ fn serve() {
         let fields: Vec<String> = it.map(util::unhex).collect();
         let res = std::panic::catch_unwind(std::panic::AssertUnwindSafe(|| {
             if let Some(r) = ops_cache::dispatch(&mut cst, &op, &fields) {
+                return r;
+            }
+            if let Some(r) = ops_claim::dispatch(&mut qst, &op, &fields) {
                 return r;
             }
             if let Some(r) = ops_checker::dispatch(&op, &fields) {
